@@ -1070,22 +1070,23 @@ func buildEntries() []entry {
 		g.p.emit(op)
 	}, opcode.REMOVE)
 	add(4, func(g *single, op opcode.Opcode) {
+		kind := pick(g.t, 4, "set_val")
+		if kind == 1 && rapid.Bool().Draw(g.t, "set_keep_struct") {
+			// struct ; container ; DUP ; key ; PUSH3 PICK ; SETITEM -> [struct container]: the stored element must be a copy
+			emitSpec(g.p, genArrayLike(g.t, "set_struct", 'T', 2))
+			g.containerAndKey(true, true)
+			g.p.pushSmall(3)
+			g.p.emit(opcode.PICK)
+			g.p.emit(op)
+			return
+		}
 		g.containerAndKey(true, true)
 		// value: for buffers mostly byte-range integers
-		switch pick(g.t, 4, "set_val") {
+		switch kind {
 		case 0:
 			g.small(sample(g.t, []int{-129, -128, -1, 0, 255, 256}, "set_byte"))
 		case 1:
-			emitSpec(g.p, genArrayLike(g.t, "set_struct", 'T', 2))
-			if rapid.Bool().Draw(g.t, "set_keep_struct") {
-				// container container key struct -> struct container container key struct (the stored element must be a copy)
-				g.p.emit(opcode.DUP)
-				g.p.pushSmall(4)
-				g.p.emit(opcode.ROLL) // bring one container reference to the top ...
-				g.p.emit(opcode.DROP) // ... and drop it: stack is container key struct struct? no: keep it simple below
-				g.p.emit(opcode.DEPTH)
-				g.p.emit(opcode.DROP)
-			}
+			emitSpec(g.p, genArrayLike(g.t, "set_struct", 'T', 1))
 		default:
 			g.role('x', "val")
 		}
